@@ -5,3 +5,8 @@ package tak
 
 func (p *Position) VerifCountFlats() (int, int) { return p.countFlats() }
 func (p *Position) VerifFlatsWinner() Color    { return p.flatsWinner() }
+
+// second round (work package gen2): slice-reading / slice-building functions regenerated into FuncsPos / FuncsRoad / FuncsMoveGen
+func (p *Position) VerifHashAt(i uint) uint64      { return p.hashAt(i) }
+func (p *Position) VerifHasRoad() (Color, bool)    { return p.hasRoad() }
+func VerifCalculateSlides(stack int) []Slides      { return calculateSlides(stack) }
